@@ -156,6 +156,8 @@ def render_file(f):
             L.append("import pytest")
             L.append(f"@pytest.mark.parametrize('_p', {t['param']!r})")
             L.append(f"def {t['name']}(_p):")
+        elif t.get("args"):
+            L.append(f"def {t['name']}({t['args']}):")
         else:
             L.append(f"def {t['name']}():")
         if not t["events"]:
